@@ -33,11 +33,12 @@ Oracle clauses (only what the statement says)
   stream-position   to_json() after the streams were read differs from to_json() of a fresh extraction
   cli-equal         exit code != 0, stdout is not exactly one JSON document + newline, or it differs from the JSON the
                     statement names (object for one result, array for several; --json-unit: the units' JSON)
-  any-domain:<c>    clause <c> failed on a type-directed instance that holds a value no extractor produces: in an Any-typed
-                    position a marker dict, nested list, bytes, datetime/date/time/timedelta/Decimal; or a marker KEY in a
-                    Dict[str, str] field (HtmlContent.headings/links, EpubContent.toc: their keys are literals of the
-                    extractor code). All classes share one finding per mechanism (marker-looking dict / non-JSON leaf).
-                    Every other failure is reachable: produced from a real document, or from scalar cell values and
+  (not judged)      a type-directed instance that holds a value no extractor produces - in an Any-typed position a marker
+                    dict, nested list, bytes, datetime/date/time/timedelta/Decimal; or a marker KEY in a Dict[str, str]
+                    field (HtmlContent.headings/links, EpubContent.toc: their keys are literals of the extractor code) -
+                    is outside the quantifier ("every extraction result"); such instances are still built and run, their
+                    outcome classes are counted in the coverage ("any|..."), but they produce no failure.
+                    Every judged failure is reachable: produced from a real document, or from scalar cell values and
                     header-named keys of XlsSheet rows.
 
 Triage: minimal cases are normalised (sheet: column deletion, incidental cells -> plain token / "QUJD"; instance: earliest
@@ -522,11 +523,14 @@ def evaluate_instance(case, seed):
     seen = set()
     out = []
     for c, m in fails:
-        c = ("any-domain:" + c) if unreach else c
         if c not in seen:
             seen.add(c)
             out.append((c, m + " [instance %s]" % _short(x)))
-    return out, "%s|%s" % ("any" if unreach else "reach", ",".join(sorted(seen)))
+    if unreach:
+        # the instance holds a value no extraction can put there: it is outside the statement's quantifier ("every extraction
+        # result"). The outcome is counted in the coverage (outcome class "any|...") but is not a failure of the property.
+        return [], "any|" + ",".join(sorted(seen))
+    return out, "reach|" + ",".join(sorted(seen))
 
 
 # ================================================================================================= CLI part
